@@ -84,6 +84,18 @@ def make_alphabet(n, pal):
     return alph, mk
 
 
+def extended_alphabet(alph, extra=1):
+    """an alphabet that extends `alph` by `extra` further symbols"""
+    import biotite.sequence as seq
+
+    sym = list(alph.get_symbols())
+    add = ["Z", "Y", "X"] if all(isinstance(x, str) and len(x) == 1 for x in sym) else ["ext1", "ext2", "ext3"]
+    new = sym + [a for a in add if a not in sym][:extra]
+    if isinstance(alph, seq.LetterAlphabet):
+        return seq.LetterAlphabet(new)
+    return seq.Alphabet(new)
+
+
 # ---------------------------------------------------------------------------
 # reference model (plain Python)
 # ---------------------------------------------------------------------------
@@ -207,13 +219,24 @@ class Env:
         self.n, self.pal, self.k, self.sp, self.form = n, pal, k, sp, form
         self.alph, self.mk = make_alphabet(n, pal)
         self.tn = table_n or n  # radix of the table alphabet (>= n when the table alphabet extends)
-        self.talph, self.mk_t = (self.alph, self.mk) if self.tn == n else make_alphabet(self.tn, pal)
+        self.talph, self.mk_t = self.alph, self.mk
+        if self.tn != n:
+            import biotite.sequence as seq
+
+            self.talph = ta = extended_alphabet(self.alph, self.tn - n)
+
+            def mk_t(codes):
+                s = seq.GeneralSequence(ta)
+                s.code = np.array(codes, dtype=np.uint8)
+                return s
+
+            self.mk_t = mk_t
         self.offs = offsets(k, sp)
         self.span = self.offs[-1] + 1
         self.N = self.tn**k
         self.sparg = sp_arg(sp, form)
         self.kalph = align.KmerAlphabet(self.talph, k, sp_arg(sp, form))
-        self._seq, self._km, self._st = {}, {}, {}
+        self._seq, self._km, self._st, self._ok = {}, {}, {}, {}
         self.allcodes = np.arange(self.N, dtype=np.int64)
 
     def seq(self, codes):
@@ -221,6 +244,26 @@ class Env:
         if s is None:
             s = self._seq[codes] = self.mk(codes)
         return s
+
+    def codes_ok(self, ctx, codes):
+        """pre-flight: the k-mer codes biotite computes for this sequence are the model's (a table fed with wrong
+        codes could write out of bounds); a mismatch is reported once per sequence and the sequence is left out"""
+        r = self._ok.get(codes)
+        if r is None:
+            r = True
+            if len(codes) >= self.span:
+                try:
+                    got = np.asarray(self.kalph.create_kmers(self.seq(codes).code)).tolist()
+                except Exception as e:  # noqa: BLE001
+                    got = "raised " + type(e).__name__
+                r = got == self.kmers(codes)
+                if not r:
+                    ctx.violation("KmerAlphabet.create_kmers|wrong_codes|%s" % ("continuous" if self.sp is None else "spacing_arg"),
+                                  "k-mer codes differ from sum n^(k-i-1) s_i over the informative positions",
+                                  {"kind": "kalph", "n": self.tn, "k": self.k, "sp": self.sp, "form": self.form,
+                                   "dtype": "uint8", "seqs": [list(codes)]}, self.kmers(codes), got)
+            self._ok[codes] = r
+        return r
 
     def kmers(self, codes):
         r = self._km.get(codes)
@@ -388,19 +431,22 @@ def pair_cfg(tier):
     if tier == "quick":
         return [
             {"g": "a", "n": 2, "k": 2, "lr": [0, 4], "lq": [0, 4], "mb": [2, 2, 4], "spx": 2, "parts": 1},
-            {"g": "b", "n": 2, "k": 3, "lr": [0, 5], "lq": [0, 5], "mb": [2, 2, 2], "spx": 2, "parts": 3},
+            {"g": "b", "n": 2, "k": 3, "lr": [0, 5], "lq": [0, 5], "mb": [1, 1, 2], "spx": 2, "parts": 3,
+             "kinds": ["K", "B1", "B3", "B7", "B11"]},
             {"g": "c", "n": 3, "k": 2, "lr": [0, 3], "lq": [0, 3], "mb": [1, 1, 2], "spx": 2, "parts": 1},
             {"g": "d", "n": 4, "k": 2, "lr": [0, 3], "lq": [0, 3], "mb": [1, 1, 1], "spx": 1, "parts": 1},
             {"g": "e", "n": 4, "k": 3, "lr": [3, 4], "lq": [3, 4], "mb": [0, 0, 0], "spx": 1, "parts": 2,
              "models": [None, [0, 1, 3], [0, 2, 3]], "kinds": ["K", "B7", "B67"]},
         ]
     return [
-        {"g": "a", "n": 2, "k": 2, "lr": [0, 5], "lq": [0, 5], "mb": [2, 2, 4], "spx": 2, "parts": 4},
-        {"g": "b", "n": 2, "k": 3, "lr": [0, 6], "lq": [0, 5], "mb": [2, 2, 3], "spx": 2, "parts": 12},
-        {"g": "b4", "n": 2, "k": 4, "lr": [3, 6], "lq": [3, 6], "mb": [1, 1, 2], "spx": 1, "parts": 4},
-        {"g": "c", "n": 3, "k": 2, "lr": [0, 4], "lq": [0, 4], "mb": [1, 1, 2], "spx": 2, "parts": 6},
-        {"g": "c3", "n": 3, "k": 3, "lr": [2, 4], "lq": [2, 4], "mb": [1, 1, 1], "spx": 1, "parts": 4},
-        {"g": "d", "n": 4, "k": 2, "lr": [0, 4], "lq": [0, 3], "mb": [1, 1, 2], "spx": 2, "parts": 6},
+        {"g": "a", "n": 2, "k": 2, "lr": [0, 5], "lq": [0, 5], "mb": [2, 2, 3], "spx": 2, "parts": 4},
+        {"g": "b", "n": 2, "k": 3, "lr": [0, 5], "lq": [0, 5], "mb": [2, 2, 2], "spx": 2, "parts": 4},
+        {"g": "b6", "n": 2, "k": 3, "lr": [6, 6], "lq": [3, 6], "mb": [1, 1, 1], "spx": 2, "parts": 2,
+         "kinds": ["K", "B3", "B11"]},
+        {"g": "b4", "n": 2, "k": 4, "lr": [3, 6], "lq": [3, 6], "mb": [1, 1, 1], "spx": 1, "parts": 3},
+        {"g": "c", "n": 3, "k": 2, "lr": [0, 4], "lq": [0, 4], "mb": [1, 1, 1], "spx": 2, "parts": 4},
+        {"g": "c3", "n": 3, "k": 3, "lr": [2, 4], "lq": [2, 4], "mb": [1, 1, 1], "spx": 1, "parts": 3},
+        {"g": "d", "n": 4, "k": 2, "lr": [0, 4], "lq": [0, 3], "mb": [1, 1, 1], "spx": 2, "parts": 4},
         {"g": "e", "n": 4, "k": 3, "lr": [3, 4], "lq": [3, 4], "mb": [1, 0, 1], "spx": 1, "parts": 6,
          "kinds": ["K", "B1", "B7", "B67"]},
         {"g": "f", "n": 5, "k": 2, "lr": [1, 3], "lq": [1, 3], "mb": [1, 1, 1], "spx": 1, "parts": 2},
@@ -560,8 +606,10 @@ def run_pair(shard, ctx):
     sp, tk = shard["sp"], shard["tk"]
     env = Env(g["n"], ctx.seed, g["k"], sp)
     mbr, mbq, mbt = g["mb"]
-    qcases = [prep_query(env, tk, s, m) for s, m in pair_cases(g["n"], g["lq"][0], g["lq"][1], mbq)]
-    refs = pair_cases(g["n"], g["lr"][0], g["lr"][1], mbr)
+    if env.tn != env.n:
+        raise RuntimeError("pair shards use the sequence alphabet")
+    qcases = [prep_query(env, tk, s, m) for s, m in pair_cases(g["n"], g["lq"][0], g["lq"][1], mbq) if env.codes_ok(ctx, s)]
+    refs = [(s, m) for s, m in pair_cases(g["n"], g["lr"][0], g["lr"][1], mbr) if env.codes_ok(ctx, s)]
     base = {"kind": "pair", "g": shard["g"], "n": g["n"], "k": g["k"], "sp": sp, "tk": tk}
     for ri, (rc, rm) in enumerate(refs):
         if ri % g["parts"] != shard["part"]:
@@ -589,6 +637,8 @@ def replay_pair(case, ctx):
     env = Env(case["n"], ctx.seed, case["k"], case["sp"])
     tk = case["tk"]
     rc, rm = tuple(case["ref"]), tuple(case["rmask"])
+    if not env.codes_ok(ctx, rc) or ("q" in case and not env.codes_ok(ctx, tuple(case["q"]))):
+        return
     t, obs = build_ref(ctx, env, tk, rc, rm, icls_of(case["sp"], rm, ()), lambda: case)
     if obs is None or "q" not in case:
         return
@@ -613,7 +663,14 @@ def shards(tier, seed):
 
 
 def run_shard(shard, ctx):
+    import os
+    import sys
+    import time
+
+    t0 = time.process_time()
     RUNNERS[shard["kind"]](shard, ctx)
+    if os.environ.get("C10_TIMING"):
+        print("C10TIME %.2f %s" % (time.process_time() - t0, json.dumps(shard)), file=sys.stderr)
 
 
 def replay(case, ctx):
@@ -642,7 +699,23 @@ REPLAYERS = {"pair": replay_pair}
 
 
 def bounds(tier):
-    return {"pair": pair_cfg(tier)}
+    sc = sel_cfg(tier)
+    return {
+        "pair": [dict(g, models=len(pair_models(g)), kinds=pair_kinds(g, tier),
+                      note="lr/lq = reference/query length range, mb = [max mask bits reference, query, together], "
+                           "spx: spacing models = every k-subset of [0, k+spx) plus None") for g in pair_cfg(tier)],
+        "multi": multi_cfg(tier),
+        "triple": dict(triple_cfg(tier), pool=[list(s) for s in POOL3], id_schemes=list(ID_SCHEMES)),
+        "similarity": {"groups": sim_cfg(tier), "matrices": list(MATRICES),
+                       "thresholds": "every integer in [k*min(M)-1, k*max(M)+1]"},
+        "selectors": {"minimizer": sc["min"], "windows": sc["windows"], "minimizer_arrays": sc["minarr"],
+                      "syncmer": sc["sync"], "syncmer_perms": list(sc["sync_perms"]),
+                      "syncmer_offsets": "every subset of size 1 or 2 of [-(k-s+1), k-s]",
+                      "mincode": sc["mincode"], "compression": sc["compression"], "permutations": list(PERMS)},
+        "kmer_alphabet": {"(n, k, max length)": kalph_cfg(tier), "spacing_forms": list(FORMS), "code_dtypes": list(DTYPES)},
+        "malformed_probes": "fixed list (see oor_probes), each in a forked child",
+        "palettes": {str(k): [list(map(str, p)) for p in v] for k, v in PALETTES.items()},
+    }
 
 
 # ---------------------------------------------------------------------------
@@ -693,10 +766,10 @@ def multi_cfg(tier):
              "maskkinds": [], "parts": 2},
         ]
     return [
-        {"g": "m2", "n": 2, "k": 2, "len": [0, 5], "models": spacing_models(2, 2),
-         "idkinds": ["K", "B1", "B2", "B3", "B5", "Bdef"], "maskkinds": ["K", "B2", "B3", "B5"], "parts": 6},
-        {"g": "m3", "n": 2, "k": 3, "len": [0, 5], "models": [None, [0, 1, 3], [0, 2, 3], [0, 2, 4], [1, 2, 3]],
-         "idkinds": ["K", "B2", "B3", "B7", "B11", "Bdef"], "maskkinds": ["K", "B3"], "parts": 8},
+        {"g": "m2", "n": 2, "k": 2, "len": [0, 5], "models": [None, [0, 2], [1, 3]],
+         "idkinds": ["K", "B1", "B2", "B3", "B5", "Bdef"], "maskkinds": ["K", "B3"], "parts": 6},
+        {"g": "m3", "n": 2, "k": 3, "len": [0, 5], "models": [None, [0, 1, 3], [0, 2, 4]],
+         "idkinds": ["K", "B2", "B7", "B11", "Bdef"], "maskkinds": ["K"], "parts": 8},
         {"g": "m4", "n": 3, "k": 2, "len": [0, 3], "models": [None, [0, 2]], "idkinds": ["K", "B2", "B7", "B11", "Bdef"],
          "maskkinds": ["K", "B7"], "parts": 3},
     ]
@@ -732,16 +805,17 @@ def _mgroup(tier, name):
 class MultiCtx:
     """per shard: queries shared by all table cases"""
 
-    def __init__(self, env, tk, n, k, nb=None):
-        self.env, self.tk, self.n, self.k = env, tk, n, k
+    def __init__(self, env, tk, n, k, nb=None, ctx=None):
+        self.env, self.tk, self.n, self.k, self.ctx = env, tk, n, k, ctx
         self._sub = {}
         if tk == "Bdef" and nb is None:
             return  # bucket count is chosen by the class: query side tables are made per observed count
         if nb is not None:
             tk = "B%d" % nb
-        qs = [s for s in all_seqs(n, k, k + 1)]
+        good = (lambda s: True) if ctx is None else (lambda s: env.codes_ok(ctx, s))
+        qs = [s for s in all_seqs(n, k, k + 1) if good(s)]
         cover = debruijn(n, k)
-        self.cover = [cover, tuple(reversed(cover))]
+        self.cover = [c for c in (cover, tuple(reversed(cover))) if good(c)]
         self.queries = [prep_query(env, tk, s, ()) for s in qs + self.cover]
         self.altq = [prep_query(env, tk, s, (), with_table=False) for s in self.cover]
         kw = nb_kw(tk)
@@ -755,7 +829,7 @@ class MultiCtx:
             return self
         nb = int(table.n_buckets)
         if nb not in self._sub:
-            m = MultiCtx(self.env, "Bdef", self.n, self.k, nb=nb)
+            m = MultiCtx(self.env, "Bdef", self.n, self.k, nb=nb, ctx=self.ctx)
             m.tk = "Bdef"
             self._sub[nb] = m
         return self._sub[nb]
@@ -833,6 +907,8 @@ def check_table_case(ctx, mc, case):
                     + (["refmask"] if anymask else
                        ["ids_" + case["ids"]] + (["alphabet_" + alpha] if alpha != "same" else [])))
     short = any(len(s) < env.span for s in seqs)
+    if not all(env.codes_ok(ctx, s) for s in seqs):
+        return
     req, opt, keep = [], [], []
     for j, (s, mk) in enumerate(zip(seqs, masks)):
         r, o = env.entries(s, mk)
@@ -919,7 +995,15 @@ def check_table_case(ctx, mc, case):
                     kw["spacing"] = env.sparg
                 if mk:
                     kw["ignore_masks"] = [mask_array(len(s), mk)]
-                subs.append(T.from_sequences(env.k, [env.seq(s)], ref_ids=[rid[j]], **kw))
+                sub = T.from_sequences(env.k, [env.seq(s)], ref_ids=[rid[j]], **kw)
+                if mk:
+                    # a part table is a from_sequences result of its own: validate it before blaming the merge
+                    r1, o1 = env.entries(s, mk)
+                    if check_content(ctx, env, "Bdef" if tk != "K" else "K", sub, [(c, rid[j], p) for p, c in r1],
+                                     [(c, rid[j], p) for p, c in o1], "from_sequences", icls, case) is None:
+                        ctx.count("skipped_after_content_violation")
+                        return
+                subs.append(sub)
             if tk == "Bdef" and len({t.n_buckets for t in subs}) > 1:
                 try:
                     T.from_tables(subs)
@@ -1001,7 +1085,7 @@ def run_multi(shard, ctx):
     g = _mgroup(ctx.tier, shard["g"])
     sp, tk = shard["sp"], shard["tk"]
     env = Env(g["n"], ctx.seed, g["k"], sp)
-    mc = MultiCtx(env, tk, g["n"], g["k"])
+    mc = MultiCtx(env, tk, g["n"], g["k"], ctx=ctx)
     S = all_seqs(g["n"], g["len"][0], g["len"][1])
     base = {"kind": "multi", "g": shard["g"], "n": g["n"], "k": g["k"], "sp": sp, "tk": tk}
     idx = 0
@@ -1038,7 +1122,7 @@ def run_triple(shard, ctx):
     envs["explicit"] = envs["same"]
     envs["ext"] = Env(cfg["n"], ctx.seed, cfg["k"], sp, table_n=3)
     envs["mixed"] = envs["ext"]
-    mcs = {a: MultiCtx(e, tk, cfg["n"], cfg["k"]) for a, e in envs.items() if a in ("same", "ext")}
+    mcs = {a: MultiCtx(e, tk, cfg["n"], cfg["k"], ctx=ctx) for a, e in envs.items() if a in ("same", "ext")}
     mcs["explicit"], mcs["mixed"] = mcs["same"], mcs["ext"]
     base = {"kind": "triple", "n": cfg["n"], "k": cfg["k"], "sp": sp, "tk": tk}
     for tri in itertools.product(range(len(POOL3)), repeat=3):
@@ -1058,7 +1142,7 @@ def run_triple(shard, ctx):
 def replay_multi(case, ctx):
     alpha = case.get("alpha", "same")
     env = Env(case["n"], ctx.seed, case["k"], case["sp"], table_n=3 if alpha in ("ext", "mixed") else None)
-    mc = MultiCtx(env, case["tk"], case["n"], case["k"])
+    mc = MultiCtx(env, case["tk"], case["n"], case["k"], ctx=ctx)
     c = {k: v for k, v in case.items() if k not in ("q", "qmask")}
     check_table_case(ctx, mc, c)
 
@@ -1066,3 +1150,1051 @@ def replay_multi(case, ctx):
 SHARD_SOURCES.append(multi_shards)
 RUNNERS.update({"multi": run_multi, "triple": run_triple})
 REPLAYERS.update({"multi": replay_multi, "triple": replay_multi})
+
+
+# ---------------------------------------------------------------------------
+# T4  similarity rule
+# ---------------------------------------------------------------------------
+def sim_matrix(name, n):
+    if name == "ident":
+        return [[1 if i == j else -1 for j in range(n)] for i in range(n)]
+    if name == "diag":
+        return [[(2 - (i % 2)) if i == j else 0 for j in range(n)] for i in range(n)]
+    if name == "offdiag":  # off-diagonal entries may beat the diagonal; self score of odd symbols is negative
+        def e(i, j):
+            if i == j:
+                return -2 if i % 2 else 0
+            return 1 if (i + j) % 2 else -1
+        return [[e(i, j) for j in range(n)] for i in range(n)]
+    raise ValueError(name)
+
+
+MATRICES = ("ident", "diag", "offdiag")
+
+
+def sim_cfg(tier):
+    if tier == "quick":
+        return [
+            {"g": "s2", "n": 2, "k": 2, "len": [0, 3], "models": [None, [0, 2]], "kinds": ["K", "B2", "B3"], "ext": [0, 1]},
+            {"g": "s3", "n": 3, "k": 2, "len": [2, 3], "models": [None], "kinds": ["K", "B7"], "ext": [0]},
+            {"g": "s23", "n": 2, "k": 3, "len": [3, 4], "models": [None, [0, 1, 3]], "kinds": ["K", "B3"], "ext": [0]},
+        ]
+    return [
+        {"g": "s2", "n": 2, "k": 2, "len": [0, 4], "models": [None, [0, 2], [1, 3]], "kinds": ["K", "B2", "B3", "B5"],
+         "ext": [0, 1]},
+        {"g": "s3", "n": 3, "k": 2, "len": [0, 3], "models": [None, [0, 2]], "kinds": ["K", "B2", "B7"], "ext": [0, 1]},
+        {"g": "s23", "n": 2, "k": 3, "len": [3, 5], "models": [None, [0, 1, 3]], "kinds": ["K", "B3", "B7"], "ext": [0]},
+        {"g": "s4", "n": 4, "k": 2, "len": [2, 3], "models": [None], "kinds": ["K", "B7"], "ext": [0]},
+    ]
+
+
+def sim_shards(tier):
+    out = []
+    for g in sim_cfg(tier):
+        for mname in MATRICES:
+            for ext in g["ext"]:
+                for sp in g["models"]:
+                    for tk in g["kinds"]:
+                        out.append({"kind": "sim", "g": g["g"], "matrix": mname, "ext": ext, "sp": sp, "tk": tk})
+    ks = [(2, 2), (2, 3), (3, 2), (3, 3), (4, 2)] + ([(4, 3), (2, 4), (5, 2)] if tier == "thorough" else [])
+    for n, k in ks:
+        out.append({"kind": "simk", "n": n, "k": k})
+    return out
+
+
+def _sgroup(tier, name):
+    for g in sim_cfg(tier):
+        if g["g"] == name:
+            return g
+    raise KeyError(name)
+
+
+def split_code(c, n, k):
+    out = []
+    for _ in range(k):
+        out.append(c % n)
+        c //= n
+    return out[::-1]
+
+
+def sim_sets(M, n, k, thr):
+    """{kmer: [similar kmers]} by brute force over all pairs"""
+    N = n**k
+    sp = [split_code(c, n, k) for c in range(N)]
+    out = {}
+    for a in range(N):
+        out[a] = [b for b in range(N) if sum(M[x][y] for x, y in zip(sp[a], sp[b])) >= thr]
+    return out
+
+
+def make_rule(env, mname, ext, thr):
+    import biotite.sequence.align as align
+
+    malph = env.talph if not ext else extended_alphabet(env.talph, 1)
+    M = sim_matrix(mname, len(malph))
+    sm = align.SubstitutionMatrix(malph, malph, np.array(M, dtype=np.int32))
+    return align.ScoreThresholdRule(sm, thr), M
+
+
+def thresholds(M, n, k):
+    vals = [M[i][j] for i in range(n) for j in range(n)]
+    return list(range(k * min(vals) - 1, k * max(vals) + 2))
+
+
+def sim_ops(ctx, env, tk, table, obs, q, rule, ss, mkcase):
+    name = cls_name(tk)
+    req, opt = [], []
+    for p, c in q.req:
+        sim = ss[c]
+        for c2 in sim:
+            e = obs.get(c2)
+            if e:
+                req.extend((p, a, b) for a, b in e)
+        if c not in sim and c in obs:
+            opt.extend((p, a, b) for a, b in obs[c])
+    if opt:
+        ctx.count("either_identical_not_similar")
+    for op in ("match", "match_table"):
+        if op == "match":
+            want, wopt, ncol = req, opt, 3
+        else:
+            if q.table is None:
+                continue
+            want = [(QID, p, a, b) for p, a, b in req]
+            wopt = [(QID, p, a, b) for p, a, b in opt]
+            ncol = 4
+        try:
+            m = table.match(q.seq, similarity_rule=rule) if op == "match" else table.match_table(q.table, similarity_rule=rule)
+        except Exception as e:  # noqa: BLE001
+            if op == "match" and q.short:
+                ctx.count("either_short_query")
+                continue
+            ctx.violation("%s.%s|raised_%s|similarity_rule" % (name, op, type(e).__name__),
+                          "%s with a similarity rule raised: %s" % (op, str(e)[:200]), mkcase(), want[:24], type(e).__name__)
+            return False
+        r = rows(np.asarray(m), ncol)
+        d = cmp_multiset(r, want, wopt) if r is not None else ("wrong_shape", [], [])
+        if d is not None:
+            ctx.violation("%s.%s|%s|similarity_rule" % (name, op, d[0]),
+                          "%s with a similarity rule does not return exactly the similar k-mer pairs" % op, mkcase(),
+                          expected={"required": want[:24], "missing": d[1], "optional": wopt[:12]},
+                          observed={"rows": (r or [])[:24], "unexpected": d[2]})
+            return False
+    ctx.ev(1, 1 if len(req) > len(expected_triples(q.req, obs)) else 0)  # non-trivial: the rule adds triples
+    ctx.count("sim_match_ops", 2)
+    if len(ctx.outcomes) < 50000:
+        ctx.outcome(tuple(req))
+    return True
+
+
+def run_sim(shard, ctx):
+    g = _sgroup(ctx.tier, shard["g"])
+    sp, tk, mname, ext = shard["sp"], shard["tk"], shard["matrix"], shard["ext"]
+    env = Env(g["n"], ctx.seed, g["k"], sp)
+    S = [s for s in all_seqs(g["n"], g["len"][0], g["len"][1]) if env.codes_ok(ctx, s)]
+    qs = [prep_query(env, tk, s, ()) for s in S]
+    _, M = make_rule(env, mname, ext, 0)
+    base = {"kind": "sim", "g": shard["g"], "n": g["n"], "k": g["k"], "sp": sp, "tk": tk, "matrix": mname, "ext": ext}
+    tabs = []
+    for rc in S:
+        rcase = dict(base, ref=list(rc), rmask=[])
+        if not ctx.journal(rcase):
+            continue
+        t, obs = build_ref(ctx, env, tk, rc, (), icls_of(sp, (), ()), lambda: rcase)
+        if obs is not None:
+            tabs.append((rc, t, obs))
+    for thr in thresholds(M, g["n"], g["k"]):
+        rule, _ = make_rule(env, mname, ext, thr)
+        ss = sim_sets(M, g["n"], g["k"], thr)
+        for rc, t, obs in tabs:
+            pre = json.dumps(dict(base, ref=list(rc), rmask=[], thr=thr))[:-1]
+            for q in qs:
+                js = pre + ',"q":%s,"qmask":[]}' % (list(q.codes),)
+                if not ctx.journal(js):
+                    continue
+                ok = sim_ops(ctx, env, tk, t, obs, q, rule, ss, lambda: json.loads(js))
+                if ok and len(ctx.samples) < 1 and obs and len(q.req) > 1 and thr == 0:
+                    ctx.sample(json.loads(js))
+
+
+def replay_sim(case, ctx):
+    env = Env(case["n"], ctx.seed, case["k"], case["sp"])
+    tk = case["tk"]
+    rc = tuple(case["ref"])
+    t, obs = build_ref(ctx, env, tk, rc, (), icls_of(case["sp"], (), ()), lambda: case)
+    if obs is None or "q" not in case:
+        return
+    rule, M = make_rule(env, case["matrix"], case["ext"], case["thr"])
+    ss = sim_sets(M, case["n"], case["k"], case["thr"])
+    q = prep_query(env, tk, tuple(case["q"]), ())
+    sim_ops(ctx, env, tk, t, obs, q, rule, ss, lambda: case)
+
+
+def check_simk(ctx, case):
+    """ScoreThresholdRule.similar_kmers against brute force for every k-mer"""
+    import biotite.sequence.align as align
+
+    n, k, mname, ext, thr = case["n"], case["k"], case["matrix"], case["ext"], case["thr"]
+    env = Env(n, ctx.seed, k, None)
+    rule, M = make_rule(env, mname, ext, thr)
+    ss = sim_sets(M, n, k, thr)
+    for c in range(env.N):
+        ctx.ev(1, 1 if 1 < len(ss[c]) < env.N else 0)
+        try:
+            got = np.asarray(rule.similar_kmers(env.kalph, c)).tolist()
+        except Exception as e:  # noqa: BLE001
+            ctx.violation("ScoreThresholdRule.similar_kmers|raised_%s|valid_kmer" % type(e).__name__, str(e)[:200],
+                          dict(case, kmer=c), ss[c], type(e).__name__)
+            return
+        ctx.outcome((n, k, tuple(ss[c])))
+        d = cmp_multiset(got, ss[c])
+        if d is not None:
+            ctx.violation("ScoreThresholdRule.similar_kmers|%s|valid_kmer" % d[0], "similar k-mers differ from the brute-force "
+                          "set {b : sum M[a_i, b_i] >= threshold}", dict(case, kmer=c), ss[c], got)
+            return
+    _ = align
+
+
+def run_simk(shard, ctx):
+    n, k = shard["n"], shard["k"]
+    for mname in MATRICES:
+        for ext in (0, 1):
+            if ext and n >= 5:
+                continue
+            M = sim_matrix(mname, n + ext)
+            for thr in thresholds(M, n, k):
+                case = {"kind": "simk", "n": n, "k": k, "matrix": mname, "ext": ext, "thr": thr}
+                if ctx.journal(case):
+                    check_simk(ctx, case)
+    # documented refusal: asymmetric matrix
+    import biotite.sequence.align as align
+
+    env = Env(n, ctx.seed, k, None)
+    A = np.array(sim_matrix("ident", n), dtype=np.int32)
+    A[0, 1] = 5
+    try:
+        align.ScoreThresholdRule(align.SubstitutionMatrix(env.alph, env.alph, A), 0)
+        ctx.violation("ScoreThresholdRule.__init__|no_error|asymmetric_matrix", "asymmetric matrix accepted",
+                      {"kind": "simk", "n": n, "k": k, "matrix": "asym", "ext": 0, "thr": 0}, "ValueError", "returned")
+    except ValueError:
+        ctx.count("refused_documented")
+
+
+def replay_simk(case, ctx):
+    if case["matrix"] != "asym":
+        check_simk(ctx, case)
+
+
+SHARD_SOURCES.append(sim_shards)
+RUNNERS.update({"sim": run_sim, "simk": run_simk})
+REPLAYERS.update({"sim": replay_sim, "simk": replay_simk})
+
+
+# ---------------------------------------------------------------------------
+# selectors
+# ---------------------------------------------------------------------------
+PERMS = ("none", "freq_rev", "freq_ties", "freq_cyc", "freq_table", "random", "neg")
+
+
+def freq_seq(n, k):
+    return debruijn(n, k) + (0,) * k + (n - 1, 0) * 2
+
+
+def perm_order(name, n, k, N):
+    """model: sort key of every k-mer code (documented definitions)"""
+    if name == "none":
+        return list(range(N))
+    if name == "neg":
+        return [-c for c in range(N)]
+    if name == "random":
+        out = []
+        for c in range(N):
+            v = (LCG_A * c + 1) % 2**64
+            out.append(v - 2**64 if v >= 2**63 else v)
+        return out
+    if name == "freq_rev":
+        counts = [N - 1 - c for c in range(N)]
+    elif name == "freq_ties":
+        counts = [c % 2 for c in range(N)]
+    elif name == "freq_cyc":  # a rank order that is not its own inverse
+        counts = [(c + 1) % N for c in range(N)]
+    elif name == "freq_table":
+        counts = [0] * N
+        for c in model_kmers(freq_seq(n, k), n, list(range(k))):
+            counts[c] += 1
+    else:
+        raise ValueError(name)
+    ranked = sorted(range(N), key=lambda c: (counts[c], c))  # less frequent first, ties by code (stable)
+    order = [0] * N
+    for r, c in enumerate(ranked):
+        order[c] = r
+    return order
+
+
+def perm_range(name, N):
+    if name == "none":
+        return 0, N - 1
+    if name == "neg":
+        return -(N - 1), 0
+    if name == "random":
+        return -(2**63), 2**63 - 1
+    return 0, N - 1
+
+
+def perm_impl(name, kalph, n, k, N, pal):
+    import biotite.sequence.align as align
+
+    if name == "none":
+        return None
+    if name == "neg":
+        class Neg(align.Permutation):
+            @property
+            def min(self):
+                return -(N - 1)
+
+            @property
+            def max(self):
+                return 0
+
+            def permute(self, kmers):
+                return -np.asarray(kmers).astype(np.int64)
+
+        return Neg()
+    if name == "random":
+        return align.RandomPermutation()
+    if name == "freq_rev":
+        return align.FrequencyPermutation(kalph, np.array([N - 1 - c for c in range(N)], dtype=np.int64))
+    if name == "freq_ties":
+        return align.FrequencyPermutation(kalph, np.array([c % 2 for c in range(N)], dtype=np.int64))
+    if name == "freq_cyc":
+        return align.FrequencyPermutation(kalph, np.array([(c + 1) % N for c in range(N)], dtype=np.int64))
+    if name == "freq_table":
+        _, mk = make_alphabet(n, pal)
+        t = align.KmerTable.from_sequences(k, [mk(freq_seq(n, k))])
+        return align.FrequencyPermutation.from_table(t)
+    raise ValueError(name)
+
+
+def check_selection(ctx, site, icls, case, got, want):
+    """got: (positions, kmers) arrays; want: list of (position, kmer).  True if it agrees."""
+    pos, km = got
+    pos = np.asarray(pos)
+    km = np.asarray(km)
+    if pos.dtype == np.bool_:
+        ctx.violation("%s|positions_are_boolean_mask|any_input" % site, "the first return value is a boolean mask over "
+                      "the k-mers, documented: the indices (uint32) where the selected k-mers start", case,
+                      expected=[p for p, _ in want], observed=pos.tolist())
+        pos = np.where(pos)[0]
+    if pos.ndim != 1 or km.ndim != 1 or len(pos) != len(km):
+        ctx.violation("%s|wrong_shape|%s" % (site, icls), "positions / k-mers arrays differ in shape", case,
+                      expected=want, observed=[pos.tolist(), km.tolist()])
+        return False
+    r = list(zip(pos.tolist(), km.tolist()))
+    d = cmp_multiset(r, want)
+    if d is not None:
+        ctx.violation("%s|%s|%s" % (site, d[0], icls), "selected (position, k-mer) pairs differ from the definition", case,
+                      expected=want, observed=r)
+        return False
+    return True
+
+
+def sel_call(ctx, site, icls, case, fn, want, either):
+    """run one selector call; `either`: exception allowed (then `want` must be what a non-raising call returns)"""
+    try:
+        got = fn()
+    except Exception as e:  # noqa: BLE001
+        if either:
+            ctx.count("either_" + either)
+            return True
+        ctx.violation("%s|raised_%s|%s" % (site, type(e).__name__, icls), "selector raised on legal input: %s" % str(e)[:200],
+                      case, expected=want, observed=type(e).__name__)
+        return False
+    return check_selection(ctx, site, icls, case, got, want)
+
+
+def model_minimizers(vals, window):
+    pos = set()
+    for i in range(len(vals) - window + 1):
+        w = vals[i:i + window]
+        pos.add(i + w.index(min(w)))
+    return sorted(pos)
+
+
+def sel_cfg(tier):
+    q = tier == "quick"
+    return {
+        "min": [
+            {"n": 2, "k": 2, "models": [None, [0, 2]], "L": 11 if q else 13, "perms": PERMS},
+            {"n": 2, "k": 3, "models": [None, [0, 1, 3]], "L": 10 if q else 13, "perms": PERMS},
+            {"n": 3, "k": 2, "models": [None], "L": 6 if q else 8, "perms": PERMS},
+            {"n": 4, "k": 2, "models": [None], "L": 5 if q else 7, "perms": ("none", "freq_cyc", "random", "neg") if q else PERMS},
+        ],
+        "windows": [2, 3, 4, 5] if q else [2, 3, 4, 5, 6, 7],
+        "minarr": {"N": 4, "len": 7 if q else 9, "perms": ("none", "neg", "random", "freq_ties")},
+        "sync": [
+            {"n": 2, "ks": [(3, 2), (4, 2), (4, 3)] if q else [(3, 2), (4, 2), (4, 3), (5, 2), (5, 3), (5, 4), (6, 3)],
+             "L": 8 if q else 10},
+            {"n": 3, "ks": [(3, 2)] if q else [(3, 2), (4, 2), (4, 3)], "L": 5 if q else 6},
+            {"n": 4, "ks": [(3, 2)], "L": 5 if q else 6},
+        ],
+        "sync_perms": ("none", "freq_cyc", "random", "neg"),
+        "mincode": [
+            {"n": 2, "k": 2, "models": [None, [0, 2]], "L": 8 if q else 10},
+            {"n": 2, "k": 3, "models": [None], "L": 8 if q else 10},
+            {"n": 3, "k": 2, "models": [None], "L": 5 if q else 7},
+            {"n": 4, "k": 2, "models": [None], "L": 4 if q else 6},
+        ],
+        "compression": [1, 1.5, 2, 3, 4, 7, 100, 2.5],
+    }
+
+
+def sel_shards(tier):
+    c = sel_cfg(tier)
+    out = []
+    for g in c["min"]:
+        for sp in g["models"]:
+            for perm in g["perms"]:
+                out.append({"kind": "min", "n": g["n"], "k": g["k"], "sp": sp, "perm": perm, "L": g["L"]})
+    for perm in c["minarr"]["perms"]:
+        for w in c["windows"]:
+            out.append({"kind": "minarr", "N": c["minarr"]["N"], "len": c["minarr"]["len"], "perm": perm, "w": w})
+    for g in c["sync"]:
+        for k, s in g["ks"]:
+            for perm in c["sync_perms"]:
+                out.append({"kind": "sync", "n": g["n"], "k": k, "s": s, "perm": perm, "L": g["L"]})
+    for g in c["mincode"]:
+        for sp in g["models"]:
+            out.append({"kind": "mincode", "n": g["n"], "k": g["k"], "sp": sp, "L": g["L"]})
+    out.append({"kind": "selmisc"})
+    return out
+
+
+# ---- minimizers
+def check_min_case(ctx, env, sel, order, case, window, codes, icls):
+    km = env.kmers(codes)
+    vals = [order[c] for c in km]
+    mpos = model_minimizers(vals, window)
+    want = [(p, km[p]) for p in mpos]
+    either = "short_sequence" if len(codes) < env.span else ("fewer_kmers_than_window" if len(km) < window else None)
+    ctx.ev(1, 1 if len(km) > window and 1 < len(want) else 0)
+    ctx.outcome((window, tuple(want)))
+    ok = sel_call(ctx, "MinimizerSelector.select", icls, case, lambda: sel.select(env.seq(codes)), want, either)
+    if ok and len(codes) >= env.span:
+        arr = np.array(km, dtype=np.int64)
+        ok = sel_call(ctx, "MinimizerSelector.select_from_kmers", icls, case, lambda: sel.select_from_kmers(arr), want, either)
+    return ok
+
+
+def run_min(shard, ctx):
+    import biotite.sequence.align as align
+
+    n, k, sp, perm = shard["n"], shard["k"], shard["sp"], shard["perm"]
+    env = Env(n, ctx.seed, k, sp)
+    order = perm_order(perm, n, k, env.N)
+    pobj = perm_impl(perm, align.KmerAlphabet(env.alph, k), n, k, env.N, ctx.seed)
+    icls = ("continuous" if sp is None else "spacing_arg") + "+perm_" + perm
+    base = {"kind": "min", "n": n, "k": k, "sp": sp, "perm": perm}
+    for w in sel_cfg(ctx.tier)["windows"]:
+        sel = align.MinimizerSelector(env.kalph, w, pobj)
+        pre = json.dumps(dict(base, w=w))[:-1]
+        for codes in all_seqs(n, 0, shard["L"]):
+            js = pre + ',"seq":%s}' % (list(codes),)
+            if not ctx.journal(js):
+                continue
+            ok = check_min_case(ctx, env, sel, order, json.loads(js) if ctx.viol_total < 3 else js, w, codes, icls)
+            if ok and len(ctx.samples) < 1 and len(codes) == shard["L"] and w == 3 and codes[0] == 1:
+                ctx.sample(json.loads(js))
+
+
+def replay_min(case, ctx):
+    import biotite.sequence.align as align
+
+    n, k, sp, perm = case["n"], case["k"], case["sp"], case["perm"]
+    env = Env(n, ctx.seed, k, sp)
+    order = perm_order(perm, n, k, env.N)
+    pobj = perm_impl(perm, align.KmerAlphabet(env.alph, k), n, k, env.N, ctx.seed)
+    sel = align.MinimizerSelector(env.kalph, case["w"], pobj)
+    check_min_case(ctx, env, sel, order, case, case["w"], tuple(case["seq"]),
+                   ("continuous" if sp is None else "spacing_arg") + "+perm_" + perm)
+
+
+def check_minarr_case(ctx, sel, order, case, w, arr, icls):
+    vals = [order[c] for c in arr]
+    want = [(p, arr[p]) for p in model_minimizers(vals, w)]
+    ctx.ev(1, 1 if len(arr) > w and len(want) > 1 else 0)
+    ctx.outcome((w, tuple(want)))
+    a = np.array(arr, dtype=np.int64)
+    return sel_call(ctx, "MinimizerSelector.select_from_kmers", icls, case, lambda: sel.select_from_kmers(a), want,
+                    "fewer_kmers_than_window" if len(arr) < w else None)
+
+
+def run_minarr(shard, ctx):
+    import biotite.sequence.align as align
+
+    N, perm, w = shard["N"], shard["perm"], shard["w"]
+    env = Env(2, ctx.seed, 2, None)  # N = 4 k-mer codes
+    order = perm_order(perm, 2, 2, N)
+    sel = align.MinimizerSelector(env.kalph, w, perm_impl(perm, env.kalph, 2, 2, N, ctx.seed))
+    icls = "kmer_array+perm_" + perm
+    pre = json.dumps({"kind": "minarr", "perm": perm, "w": w})[:-1]
+    for arr in all_seqs(N, 0, shard["len"]):
+        js = pre + ',"arr":%s}' % (list(arr),)
+        if ctx.journal(js):
+            check_minarr_case(ctx, sel, order, js, w, arr, icls)
+
+
+def replay_minarr(case, ctx):
+    import biotite.sequence.align as align
+
+    env = Env(2, ctx.seed, 2, None)
+    order = perm_order(case["perm"], 2, 2, 4)
+    sel = align.MinimizerSelector(env.kalph, case["w"], perm_impl(case["perm"], env.kalph, 2, 2, 4, ctx.seed))
+    check_minarr_case(ctx, sel, order, case, case["w"], tuple(case["arr"]), "kmer_array+perm_" + case["perm"])
+
+
+# ---- syncmers
+def offset_sets(w):
+    vals = list(range(-w, w))
+    out = [(v,) for v in vals]
+    out += list(itertools.combinations(vals, 2))
+    return out
+
+
+def relmin_of_kmer(sym, s, sorder, ns):
+    """leftmost position of the minimum s-mer inside one k-mer given as symbol list"""
+    vals = []
+    for i in range(len(sym) - s + 1):
+        c = 0
+        for x in sym[i:i + s]:
+            c = c * ns + x
+        vals.append(sorder[c])
+    return vals.index(min(vals))
+
+
+def run_sync(shard, ctx):
+    import biotite.sequence.align as align
+
+    n, k, s, perm, L = shard["n"], shard["k"], shard["s"], shard["perm"], shard["L"]
+    env = Env(n, ctx.seed, k, None)
+    NS = n**s
+    sorder = perm_order(perm, n, s, NS)
+    salph = align.KmerAlphabet(env.alph, s)
+    w = k - s + 1
+    seqs = all_seqs(n, 0, L)
+    rel_by_code = [relmin_of_kmer(split_code(c, n, k), s, sorder, n) for c in range(env.N)]
+    pre_seq = []
+    for codes in seqs:
+        km = env.kmers(codes)
+        rel = [relmin_of_kmer(list(codes[i:i + k]), s, sorder, n) for i in range(len(km))]
+        pre_seq.append((codes, km, rel, np.array(km, dtype=np.int64)))
+    icls = "perm_" + perm
+    base = {"kind": "sync", "n": n, "k": k, "s": s, "perm": perm}
+    for offs in offset_sets(w):
+        norm = [o + w if o < 0 else o for o in offs]
+        case0 = dict(base, offset=list(offs))
+        if not ctx.journal(case0):
+            continue
+        dup = len(set(norm)) != len(norm)
+        try:
+            pobj = perm_impl(perm, salph, n, s, NS, ctx.seed)
+            sel = align.SyncmerSelector(env.alph, k, s, pobj, offset=offs)
+            csel = align.CachedSyncmerSelector(env.alph, k, s, perm_impl(perm, salph, n, s, NS, ctx.seed), offset=offs)
+        except Exception as e:  # noqa: BLE001
+            if dup:
+                ctx.count("either_duplicate_offset_refused")
+                continue
+            ctx.violation("SyncmerSelector.__init__|raised_%s|%s" % (type(e).__name__, icls), str(e)[:200], case0,
+                          "selector", type(e).__name__)
+            continue
+        oset = set(norm)
+        # all k-mer codes at once (non-overlapping k-mers)
+        want_all = [(c, c) for c in range(env.N) if rel_by_code[c] in oset]
+        for nm, so in (("SyncmerSelector", sel), ("CachedSyncmerSelector", csel)):
+            sel_call(ctx, nm + ".select_from_kmers", icls + "+all_codes", case0, lambda: so.select_from_kmers(env.allcodes),
+                     want_all, None)
+        pre = json.dumps(case0)[:-1]
+        for codes, km, rel, arr in pre_seq:
+            js = pre + ',"seq":%s}' % (list(codes),)
+            if not ctx.journal(js):
+                continue
+            want = [(i, km[i]) for i in range(len(km)) if rel[i] in oset]
+            short = "short_sequence" if len(codes) < k else None
+            ctx.ev(1, 1 if 0 < len(want) < len(km) else 0)
+            ctx.outcome((tuple(norm), tuple(want)))
+            sq = env.seq(codes)
+            ok = sel_call(ctx, "SyncmerSelector.select", icls, js, lambda: sel.select(sq), want, short)
+            ok = ok and sel_call(ctx, "CachedSyncmerSelector.select", icls, js, lambda: csel.select(sq), want, short)
+            if ok and not short:
+                ok = sel_call(ctx, "SyncmerSelector.select_from_kmers", icls, js, lambda: sel.select_from_kmers(arr), want, None)
+                ok = ok and sel_call(ctx, "CachedSyncmerSelector.select_from_kmers", icls, js,
+                                     lambda: csel.select_from_kmers(arr), want, None)
+            if ok and len(ctx.samples) < 1 and len(offs) == 2 and len(codes) == L and 0 < len(want) < len(km):
+                ctx.sample(json.loads(js))
+
+
+def replay_sync(case, ctx):
+    shard = dict(case, L=len(case.get("seq", [])) or 1)
+    if "seq" not in case:
+        shard["L"] = 0
+    # re-run the one offset set on the one sequence
+    import biotite.sequence.align as align
+
+    n, k, s, perm = case["n"], case["k"], case["s"], case["perm"]
+    env = Env(n, ctx.seed, k, None)
+    NS = n**s
+    sorder = perm_order(perm, n, s, NS)
+    salph = align.KmerAlphabet(env.alph, s)
+    w = k - s + 1
+    offs = tuple(case["offset"])
+    oset = {o + w if o < 0 else o for o in offs}
+    icls = "perm_" + perm
+    sel = align.SyncmerSelector(env.alph, k, s, perm_impl(perm, salph, n, s, NS, ctx.seed), offset=offs)
+    csel = align.CachedSyncmerSelector(env.alph, k, s, perm_impl(perm, salph, n, s, NS, ctx.seed), offset=offs)
+    if "seq" not in case:
+        rel_by_code = [relmin_of_kmer(split_code(c, n, k), s, sorder, n) for c in range(env.N)]
+        want_all = [(c, c) for c in range(env.N) if rel_by_code[c] in oset]
+        for nm, so in (("SyncmerSelector", sel), ("CachedSyncmerSelector", csel)):
+            sel_call(ctx, nm + ".select_from_kmers", icls + "+all_codes", case, lambda: so.select_from_kmers(env.allcodes),
+                     want_all, None)
+        return
+    codes = tuple(case["seq"])
+    km = env.kmers(codes)
+    want = [(i, km[i]) for i in range(len(km)) if relmin_of_kmer(list(codes[i:i + k]), s, sorder, n) in oset]
+    short = "short_sequence" if len(codes) < k else None
+    sq = env.seq(codes)
+    arr = np.array(km, dtype=np.int64)
+    sel_call(ctx, "SyncmerSelector.select", icls, case, lambda: sel.select(sq), want, short)
+    sel_call(ctx, "CachedSyncmerSelector.select", icls, case, lambda: csel.select(sq), want, short)
+    if not short:
+        sel_call(ctx, "SyncmerSelector.select_from_kmers", icls, case, lambda: sel.select_from_kmers(arr), want, None)
+        sel_call(ctx, "CachedSyncmerSelector.select_from_kmers", icls, case, lambda: csel.select_from_kmers(arr), want, None)
+
+
+# ---- mincode
+def mincode_threshold(perm, N, compression):
+    lo, hi = perm_range(perm, N)
+    return Fraction(lo) + Fraction(hi - lo + 1) / Fraction(compression)
+
+
+def check_mincode_case(ctx, env, sel, order, thr, case, codes, icls):
+    km = env.kmers(codes)
+    want = [(i, c) for i, c in enumerate(km) if order[c] < thr]
+    fthr = float(thr)
+    if any((order[c] < thr) != (float(order[c]) < fthr) for c in km):
+        ctx.count("either_float_rounding_at_threshold")
+        return True
+    ctx.ev(1, 1 if 0 < len(want) < len(km) else 0)
+    ctx.outcome(tuple(want))
+    ok = sel_call(ctx, "MincodeSelector.select", icls, case, lambda: sel.select(env.seq(codes)), want,
+                  "short_sequence" if len(codes) < env.span else None)
+    if len(codes) >= env.span:
+        arr = np.array(km, dtype=np.int64)
+        ok = sel_call(ctx, "MincodeSelector.select_from_kmers", icls, case, lambda: sel.select_from_kmers(arr), want, None) and ok
+    return ok
+
+
+def run_mincode(shard, ctx):
+    import biotite.sequence.align as align
+
+    n, k, sp = shard["n"], shard["k"], shard["sp"]
+    env = Env(n, ctx.seed, k, sp)
+    base = {"kind": "mincode", "n": n, "k": k, "sp": sp}
+    seqs = all_seqs(n, 0, shard["L"]) + [tuple(split_code(c, n, k)) for c in range(env.N)]
+    seqs = sorted(set(seqs), key=lambda s: (len(s), s))
+    for perm in PERMS:
+        order = perm_order(perm, n, k, env.N)
+        pobj = perm_impl(perm, align.KmerAlphabet(env.alph, k), n, k, env.N, ctx.seed)
+        icls = ("continuous" if sp is None else "spacing_arg") + "+perm_" + perm
+        for comp in sel_cfg(ctx.tier)["compression"]:
+            sel = align.MincodeSelector(env.kalph, comp, pobj)
+            thr = mincode_threshold(perm, env.N, comp)
+            pre = json.dumps(dict(base, perm=perm, compression=comp))[:-1]
+            for codes in seqs:
+                js = pre + ',"seq":%s}' % (list(codes),)
+                if ctx.journal(js):
+                    ok = check_mincode_case(ctx, env, sel, order, thr, js, codes, icls)
+                    if ok and len(ctx.samples) < 1 and comp == 2 and len(codes) == shard["L"] and perm == "random":
+                        ctx.sample(json.loads(js))
+
+
+def replay_mincode(case, ctx):
+    import biotite.sequence.align as align
+
+    n, k, sp, perm = case["n"], case["k"], case["sp"], case["perm"]
+    env = Env(n, ctx.seed, k, sp)
+    order = perm_order(perm, n, k, env.N)
+    sel = align.MincodeSelector(env.kalph, case["compression"], perm_impl(perm, align.KmerAlphabet(env.alph, k), n, k, env.N, ctx.seed))
+    check_mincode_case(ctx, env, sel, order, mincode_threshold(perm, env.N, case["compression"]), case, tuple(case["seq"]),
+                       ("continuous" if sp is None else "spacing_arg") + "+perm_" + perm)
+
+
+# ---- documented refusals / unspecified constructor arguments of the selectors
+def run_selmisc(shard, ctx):
+    import biotite.sequence.align as align
+
+    env = Env(2, ctx.seed, 3, None)
+    probes = [
+        ("MinimizerSelector|window_below_2", lambda: align.MinimizerSelector(env.kalph, 1), True),
+        ("MinimizerSelector|window_0", lambda: align.MinimizerSelector(env.kalph, 0), True),
+        ("SyncmerSelector|s_equals_k", lambda: align.SyncmerSelector(env.alph, 3, 3), True),
+        ("SyncmerSelector|s_above_k", lambda: align.SyncmerSelector(env.alph, 3, 4), True),
+        ("MincodeSelector|compression_below_1", lambda: align.MincodeSelector(env.kalph, 0.5), True),
+        ("SyncmerSelector|offset_above_window", lambda: align.SyncmerSelector(env.alph, 3, 2, offset=(2,)), True),
+        ("SyncmerSelector|offset_below_minus_window", lambda: align.SyncmerSelector(env.alph, 3, 2, offset=(-3,)), True),
+        ("CachedSyncmerSelector|offset_above_window", lambda: align.CachedSyncmerSelector(env.alph, 3, 2, offset=(2,)), True),
+        ("SyncmerSelector|s_1", lambda: align.SyncmerSelector(env.alph, 3, 1), False),
+        ("KmerAlphabet|k_1", lambda: align.KmerAlphabet(env.alph, 1), True),
+        ("KmerAlphabet|spacing_wrong_count", lambda: align.KmerAlphabet(env.alph, 3, "1101001"), True),
+        ("KmerAlphabet|spacing_negative", lambda: align.KmerAlphabet(env.alph, 2, [-1, 0]), True),
+        ("KmerAlphabet|spacing_duplicate", lambda: align.KmerAlphabet(env.alph, 2, [1, 1]), True),
+    ]
+    for name, fn, must in probes:
+        case = {"kind": "selmisc", "probe": name}
+        ctx.ev(1, 1)
+        try:
+            fn()
+            if must:
+                ctx.violation("%s|no_error" % name, "documented invalid argument accepted", case, "exception", "returned")
+            else:
+                ctx.count("either_accepted")
+        except Exception as e:  # noqa: BLE001
+            ctx.count("refused_documented" if must else "either_refused")
+            ctx.outcome((name, type(e).__name__))
+
+
+def replay_selmisc(case, ctx):
+    run_selmisc({}, ctx)
+
+
+SHARD_SOURCES.append(sel_shards)
+RUNNERS.update({"min": run_min, "minarr": run_minarr, "sync": run_sync, "mincode": run_mincode, "selmisc": run_selmisc})
+REPLAYERS.update({"min": replay_min, "minarr": replay_minarr, "sync": replay_sync, "mincode": replay_mincode,
+                  "selmisc": replay_selmisc})
+
+
+# ---------------------------------------------------------------------------
+# KmerAlphabet.create_kmers directly: spacing argument forms x code dtypes
+# ---------------------------------------------------------------------------
+FORMS = ("str", "list", "rlist", "array", "tuple")
+DTYPES = ("uint8", "uint16", "uint32", "uint64")
+
+
+def kalph_cfg(tier):
+    if tier == "quick":
+        return [(2, 2, 6), (2, 3, 7), (3, 2, 4), (4, 2, 4), (3, 3, 4)]
+    return [(2, 2, 8), (2, 3, 8), (2, 4, 8), (3, 2, 6), (3, 3, 5), (4, 2, 5), (4, 3, 5), (5, 2, 4)]
+
+
+def kalph_shards(tier):
+    return [{"kind": "kalph", "n": n, "k": k, "L": L} for n, k, L in kalph_cfg(tier)]
+
+
+def check_kalph_case(ctx, case):
+    import biotite.sequence.align as align
+
+    n, k, sp, form, dt = case["n"], case["k"], case["sp"], case["form"], case["dtype"]
+    alph, _ = make_alphabet(n, ctx.seed)
+    offs = offsets(k, sp)
+    ka = align.KmerAlphabet(alph, k, sp_arg(sp, form))
+    want_sp = None if sp is None else sorted(sp)
+    got_sp = None if ka.spacing is None else ka.spacing.tolist()
+    if got_sp != want_sp or ka.k != k or len(ka) != n**k:
+        ctx.violation("KmerAlphabet.__init__|wrong_attributes|spacing_form_%s" % form, "spacing / k / len", case,
+                      [want_sp, k, n**k], [got_sp, ka.k, len(ka)])
+        return
+    for codes in case["seqs"]:
+        want = model_kmers(codes, n, offs)
+        ctx.ev(1, 1 if len(want) > 1 else 0)
+        arr = np.array(codes, dtype=dt)
+        try:
+            got = np.asarray(ka.create_kmers(arr)).tolist()
+        except Exception as e:  # noqa: BLE001
+            if len(codes) < offs[-1] + 1:
+                ctx.count("either_short_sequence")
+                continue
+            ctx.violation("KmerAlphabet.create_kmers|raised_%s|%s" % (type(e).__name__, "continuous" if sp is None else "spacing_arg"),
+                          str(e)[:200], dict(case, seqs=[list(codes)]), want, type(e).__name__)
+            return
+        ctx.outcome((n, tuple(want)))
+        if got != want:
+            ctx.violation("KmerAlphabet.create_kmers|wrong_codes|%s" % ("continuous" if sp is None else "spacing_arg"),
+                          "k-mer codes differ from sum n^(k-i-1) s_i over the informative positions",
+                          dict(case, seqs=[list(codes)]), want, got)
+            return
+        if len(codes) >= offs[-1] + 1 and ka.kmer_array_length(len(codes)) != len(want):
+            ctx.violation("KmerAlphabet.kmer_array_length|wrong_value|%s" % ("continuous" if sp is None else "spacing_arg"),
+                          "length of the k-mer array", dict(case, seqs=[list(codes)]), len(want), ka.kmer_array_length(len(codes)))
+            return
+
+
+def run_kalph(shard, ctx):
+    n, k, L = shard["n"], shard["k"], shard["L"]
+    seqs = [list(s) for s in all_seqs(n, 0, L)]
+    for sp in spacing_models(k, 2):
+        for form in FORMS if sp is not None else ("str",):
+            for dt in DTYPES:
+                case = {"kind": "kalph", "n": n, "k": k, "sp": sp, "form": form, "dtype": dt}
+                if ctx.journal(case):
+                    check_kalph_case(ctx, dict(case, seqs=seqs))
+    ctx.sample({"kind": "kalph", "n": n, "k": k, "sp": [0, 2], "form": "rlist", "dtype": "uint16", "seqs": seqs[-1:]})
+
+
+def replay_kalph(case, ctx):
+    if "seqs" not in case:
+        case = dict(case, seqs=[list(s) for s in all_seqs(case["n"], 0, 5)])
+    check_kalph_case(ctx, case)
+
+
+# ---------------------------------------------------------------------------
+# malformed / boundary arguments, each call in a forked child (E4)
+# ---------------------------------------------------------------------------
+def _entries(t, N):
+    out = []
+    for c in range(N):
+        for a, b in np.asarray(t[c]).tolist():
+            out.append([c, a, b])
+    return out
+
+
+def oor_probes(pal):
+    """list of (site, input class, expectation, thunk).  expectation: ("raise",) | ("entries", list) | ("rows", list)
+    | ("either_entries", list) | ("value", v).  Thunks build everything themselves (they run in a child)."""
+    import biotite.sequence as seq
+    import biotite.sequence.align as align
+
+    env = Env(2, pal, 2, None)
+    env3 = Env(2, pal, 3, None)
+    envs = Env(2, pal, 2, [0, 2])
+    N = env.N
+    R = (0, 1, 0, 1, 1)
+    Q = (0, 1, 1)
+    P = []
+
+    def tab(tk, e=env, **kw):
+        return build_from_sequences(e, tk, [R], **kw)
+
+    big = [("minus_1", -1), ("minus_N", -N), ("below_minus_N", -N - 1), ("N", N), ("above_N", N + 5),
+           ("int32_max", 2**31 - 1), ("int64_max", 2**63 - 1), ("int64_min", -(2**63))]
+    for tk in ("K", "B3"):
+        nm = cls_name(tk)
+        T = table_class(tk)
+        kw = nb_kw(tk)
+        for cname, v in big:
+            cname = "negative" if v < 0 else cname
+            P.append((nm + ".__getitem__", "code_" + cname, ("raise_unsafe",), lambda tk=tk, v=v: np.asarray(tab(tk)[v]).tolist()))
+            if tk == "K":
+                P.append((nm + ".__contains__", "code_" + cname, ("raise_or", False), lambda tk=tk, v=v: bool(v in tab(tk))))
+            P.append((nm + ".count", "code_" + cname, ("raise",),
+                      lambda tk=tk, v=v: np.asarray(tab(tk).count(np.array([0, v], dtype=np.int64))).tolist()))
+            P.append((nm + ".match_kmer_selection", "code_" + cname, ("raise",),
+                      lambda tk=tk, v=v: np.asarray(tab(tk).match_kmer_selection(np.array([0, 1], dtype=np.uint32),
+                                                                                 np.array([1, v], dtype=np.int64))).tolist()))
+            P.append((nm + ".from_kmers", "code_" + cname, ("raise",),
+                      lambda T=T, kw=kw, v=v: _entries(T.from_kmers(env.kalph, [np.array([1, v], dtype=np.int64)], **kw), N)))
+            P.append((nm + ".from_kmer_selection", "code_" + cname, ("raise",),
+                      lambda T=T, kw=kw, v=v: _entries(T.from_kmer_selection(env.kalph, [np.array([0, 1], dtype=np.uint32)],
+                                                                             [np.array([1, v], dtype=np.int64)], **kw), N)))
+        if tk == "K":
+            for cname, v in big:
+                P.append((nm + ".from_positions", "code_" + cname, ("raise",),
+                          lambda T=T, v=v: _entries(T.from_positions(env.kalph, {v: np.array([[0, 0]], dtype=np.uint32)}), N)))
+            P.append((nm + ".from_positions", "three_columns", ("raise",),
+                      lambda T=T: _entries(T.from_positions(env.kalph, {1: np.array([[0, 0, 0]])}), N)))
+            P.append((nm + ".from_positions", "one_dimensional", ("raise",),
+                      lambda T=T: _entries(T.from_positions(env.kalph, {1: np.array([0, 0])}), N)))
+            for cname, v in (("negative", -1), ("2^32", 2**32)):
+                P.append((nm + ".from_positions", "position_outside_uint32", ("raise",),
+                          lambda T=T, v=v: _entries(T.from_positions(env.kalph, {1: np.array([[0, v]], dtype=np.int64)}), N)))
+                P.append((nm + ".from_positions", "ref_id_outside_uint32", ("raise",),
+                          lambda T=T, v=v: _entries(T.from_positions(env.kalph, {1: np.array([[v, 0]], dtype=np.int64)}), N)))
+        for cname, v in (("negative", -1), ("2^32", 2**32)):
+            P.append((nm + ".from_kmer_selection", "position_outside_uint32", ("raise",),
+                      lambda T=T, kw=kw, v=v: _entries(T.from_kmer_selection(env.kalph, [np.array([v], dtype=np.int64)],
+                                                                             [np.array([1], dtype=np.int64)], **kw), N)))
+            P.append((nm + ".match_kmer_selection", "position_outside_uint32", ("raise",),
+                      lambda tk=tk, v=v: np.asarray(tab(tk).match_kmer_selection(np.array([v], dtype=np.int64),
+                                                                                 np.array([1], dtype=np.int64))).tolist()))
+            P.append((nm + ".from_sequences", "ref_id_outside_uint32", ("raise",), lambda tk=tk, v=v: _entries(tab(tk, ids=[v]), N)))
+            P.append((nm + ".from_kmers", "ref_id_outside_uint32", ("raise",),
+                      lambda T=T, kw=kw, v=v: _entries(T.from_kmers(env.kalph, [np.array([1], dtype=np.int64)], ref_ids=[v], **kw), N)))
+        P.append((nm + ".from_kmer_selection", "positions_length_mismatch", ("raise",),
+                  lambda T=T, kw=kw: _entries(T.from_kmer_selection(env.kalph, [np.array([0, 1], dtype=np.uint32)],
+                                                                    [np.array([1], dtype=np.int64)], **kw), N)))
+        P.append((nm + ".from_kmer_selection", "list_length_mismatch", ("raise",),
+                  lambda T=T, kw=kw: _entries(T.from_kmer_selection(env.kalph, [np.array([0], dtype=np.uint32)] * 2,
+                                                                    [np.array([1], dtype=np.int64)], **kw), N)))
+        P.append((nm + ".match_kmer_selection", "positions_length_mismatch", ("raise",),
+                  lambda tk=tk: np.asarray(tab(tk).match_kmer_selection(np.array([0, 1], dtype=np.uint32),
+                                                                        np.array([1], dtype=np.int64))).tolist()))
+        # masks: wrong length / dtype / type (documented errors)
+        for cname, mk in (("mask_too_short", np.zeros(len(R) - 1, dtype=bool)), ("mask_too_long", np.zeros(len(R) + 1, dtype=bool)),
+                          ("mask_kmer_length", np.zeros(len(R) - 1, dtype=bool)), ("mask_int_dtype", np.zeros(len(R), dtype=np.int64)),
+                          ("mask_list", [False] * len(R))):
+            P.append((nm + ".from_sequences", cname, ("raise",),
+                      lambda T=T, kw=kw, mk=mk: _entries(T.from_sequences(2, [env.seq(R)], ignore_masks=[mk], **kw), N)))
+            qm = mk[:len(Q) + (len(mk) - len(R))] if not isinstance(mk, list) else mk[:len(Q)]
+            if cname != "mask_kmer_length":
+                P.append((nm + ".match", cname, ("raise",),
+                          lambda tk=tk, qm=qm: np.asarray(tab(tk).match(env.seq(Q), ignore_mask=qm)).tolist()))
+        P.append((nm + ".from_sequences", "masks_list_length_mismatch", ("raise",),
+                  lambda T=T, kw=kw: _entries(T.from_sequences(2, [env.seq(R)], ignore_masks=[None, None], **kw), N)))
+        P.append((nm + ".from_sequences", "ref_ids_length_mismatch", ("raise",),
+                  lambda T=T, kw=kw: _entries(T.from_sequences(2, [env.seq(R)], ref_ids=[1, 2], **kw), N)))
+        P.append((nm + ".from_kmers", "mask_too_short", ("raise",),
+                  lambda T=T, kw=kw: _entries(T.from_kmers(env.kalph, [np.array([0, 1, 2], dtype=np.int64)],
+                                                           masks=[np.array([True, False])], **kw), N)))
+        P.append((nm + ".from_kmers", "mask_too_long", ("raise",),
+                  lambda T=T, kw=kw: _entries(T.from_kmers(env.kalph, [np.array([0, 1, 2], dtype=np.int64)],
+                                                           masks=[np.array([True, False, True, True])], **kw), N)))
+        P.append((nm + ".from_kmers", "not_a_kmer_alphabet", ("raise",),
+                  lambda T=T, kw=kw: _entries(T.from_kmers(env.alph, [np.array([0, 1], dtype=np.int64)], **kw), N)))
+        # legal masks in unusual memory layouts: the model result is demanded
+        want = [[c, 0, p] for p, c in env.entries(R, (1,))[0]]
+        wantq = [list(x) for x in expected_triples(env.entries(Q, (0,))[0], {c: [(0, p) for p, cc in enumerate(env.kmers(R)) if cc == c]
+                                                                          for c in range(N)})]
+
+        def strided(bits):
+            b = np.zeros(2 * len(bits), dtype=bool)
+            b[::2] = bits
+            return b[::2]
+
+        def reversed_view(bits):
+            return np.array(bits[::-1], dtype=bool)[::-1]
+
+        def readonly(bits):
+            a = np.array(bits, dtype=bool)
+            a.setflags(write=False)
+            return a
+
+        def column(bits):
+            a = np.zeros((len(bits), 2), dtype=bool)
+            a[:, 0] = bits
+            return a[:, 0]
+
+        rbits = [i == 1 for i in range(len(R))]
+        qbits = [i == 0 for i in range(len(Q))]
+        for lname, mkf in (("noncontiguous_mask", strided), ("noncontiguous_mask", reversed_view), ("readonly_mask", readonly),
+                           ("noncontiguous_mask", column)):
+            P.append((nm + ".from_sequences", lname, ("entries", want),
+                      lambda T=T, kw=kw, mkf=mkf: _entries(T.from_sequences(2, [env.seq(R)], ignore_masks=[mkf(rbits)], **kw), N)))
+            P.append((nm + ".match", lname, ("rows", wantq),
+                      lambda tk=tk, mkf=mkf: np.asarray(tab(tk).match(env.seq(Q), ignore_mask=mkf(qbits))).tolist()))
+            keepbits = [True, False, True, True]
+            wk = [[c, 0, p] for p, c in enumerate(env.kmers(R)) if keepbits[p]]
+            P.append((nm + ".from_kmers", lname, ("entries", wk),
+                      lambda T=T, kw=kw, mkf=mkf: _entries(T.from_kmers(env.kalph, [np.array(env.kmers(R), dtype=np.int64)],
+                                                                        masks=[mkf(keepbits)], **kw), N)))
+        # alphabets
+        P.append((nm + ".match", "query_alphabet_not_extended", ("raise",),
+                  lambda tk=tk: np.asarray(tab(tk).match(Env(3, pal, 2, None).seq((0, 1, 2)))).tolist()))
+        P.append((nm + ".from_sequences", "alphabet_smaller_than_sequence", ("raise",),
+                  lambda T=T, kw=kw: _entries(T.from_sequences(2, [Env(3, pal, 2, None).seq((0, 1, 2))], alphabet=env.alph, **kw), N)))
+        P.append((nm + ".from_sequences", "symbol_code_outside_alphabet", ("raise",),
+                  lambda T=T, kw=kw: _entries(T.from_sequences(2, [env.mk((0, 2, 1))], **kw), N)))
+        P.append((nm + ".match", "symbol_code_outside_alphabet", ("raise",),
+                  lambda tk=tk: np.asarray(tab(tk).match(env.mk((0, 2, 1)))).tolist()))
+        P.append((nm + ".from_sequences", "no_sequences", ("raise_or_entries", []),
+                  lambda T=T, kw=kw: _entries(T.from_sequences(2, [], **kw), N)))
+        # merging / matching incompatible tables (documented refusals)
+        P.append((nm + ".from_tables", "different_k", ("raise",), lambda T=T, tk=tk: len(T.from_tables([tab(tk), tab(tk, env3)]))))
+        P.append((nm + ".from_tables", "different_spacing", ("raise",), lambda T=T, tk=tk: len(T.from_tables([tab(tk), tab(tk, envs)]))))
+        P.append((nm + ".from_tables", "empty_list", ("raise",), lambda T=T: len(T.from_tables([]))))
+        P.append((nm + ".from_tables", "other_table_class", ("raise",),
+                  lambda T=T, tk=tk: len(T.from_tables([tab(tk), tab("B3" if tk == "K" else "K")]))))
+        P.append((nm + ".match_table", "different_k", ("raise",), lambda tk=tk: np.asarray(tab(tk).match_table(tab(tk, env3))).tolist()))
+        P.append((nm + ".match_table", "different_spacing", ("raise",),
+                  lambda tk=tk: np.asarray(tab(tk).match_table(tab(tk, envs))).tolist()))
+        P.append((nm + ".match_table", "other_table_class", ("raise",),
+                  lambda tk=tk: np.asarray(tab(tk).match_table(tab("B3" if tk == "K" else "K"))).tolist()))
+        P.append((nm + ".match_table", "different_alphabet", ("raise",),
+                  lambda tk=tk: np.asarray(tab(tk).match_table(build_from_sequences(Env(3, pal, 2, None), tk, [(0, 1, 2)]))).tolist()))
+    B = align.BucketKmerTable
+    P.append(("BucketKmerTable.from_tables", "different_n_buckets", ("raise",), lambda: len(B.from_tables([tab("B3"), tab("B2")]))))
+    P.append(("BucketKmerTable.match_table", "different_n_buckets", ("raise",),
+              lambda: np.asarray(tab("B3").match_table(tab("B2"))).tolist()))
+    for cname, v in (("zero", 0), ("negative", -1)):
+        P.append(("BucketKmerTable.from_sequences", "n_buckets_" + cname, ("raise",),
+                  lambda v=v: _entries(B.from_sequences(2, [env.seq(R)], n_buckets=v), N)))
+        P.append(("BucketKmerTable.from_kmers", "n_buckets_" + cname, ("raise",),
+                  lambda v=v: _entries(B.from_kmers(env.kalph, [np.array(env.kmers(R), dtype=np.int64)], n_buckets=v), N)))
+        P.append(("BucketKmerTable.from_kmer_selection", "n_buckets_" + cname, ("raise",),
+                  lambda v=v: _entries(B.from_kmer_selection(env.kalph, [np.array([0], dtype=np.uint32)],
+                                                             [np.array([1], dtype=np.int64)], n_buckets=v), N)))
+    P.append(("BucketKmerTable.from_sequences", "n_buckets_zero", ("raise",),
+              lambda: _entries(B.from_sequences(2, [env.seq(R)], ignore_masks=[np.ones(len(R), dtype=bool)], n_buckets=0), N)))
+    _ = seq
+    return P
+
+
+def judge_probe(ctx, site, cls, expect, res, case):
+    """res: result tuple of ctx.isolated()"""
+    ctx.ev(1, 1)
+    kind = res[0]
+    ctx.outcome((site, cls, kind, res[1] if kind == "exc" else None))
+    if expect[0] == "raise_unsafe":
+        # an index that is used without a range test: whether the stray read ends in a signal or in a value
+        # depends on the heap; both are the same failure
+        if kind == "exc":
+            ctx.count("refused")
+        else:
+            ctx.violation("%s|unchecked_index|%s" % (site, cls), "the index reaches the pointer array unchecked (%r)" % (res,),
+                          case, expected="exception", observed=list(res))
+        return
+    if kind in ("signal", "timeout", "exit"):
+        ctx.violation("%s|process_%s|%s" % (site, kind, cls), "the call terminated the interpreter (%r)" % (res,), case,
+                      expected="exception" if expect[0].startswith("raise") else expect[1], observed=list(res))
+        return
+    if kind == "exc":
+        if expect[0] in ("raise", "raise_or", "raise_or_entries"):
+            ctx.count("refused")
+        else:
+            ctx.violation("%s|raised_%s|%s" % (site, res[1], cls), "legal input refused: %s" % res[2][:200], case,
+                          expected=expect[1], observed=res[1])
+        return
+    val = res[1]
+    if expect[0] == "raise":
+        ctx.violation("%s|no_error|%s" % (site, cls), "invalid argument accepted without an error", case,
+                      expected="exception", observed=val)
+    elif expect[0] in ("raise_or", "raise_or_entries"):
+        if (sorted(val) if isinstance(val, list) else val) != expect[1]:
+            ctx.violation("%s|wrong_value|%s" % (site, cls), "neither an error nor the model value", case, expect[1], val)
+        else:
+            ctx.count("either_accepted")
+    else:
+        if sorted(val) != sorted(expect[1]):
+            ctx.violation("%s|wrong_rows|%s" % (site, cls), "result differs from the reference entries", case, expect[1], val)
+        else:
+            ctx.count("accepted")
+
+
+def run_oor(shard, ctx):
+    probes = oor_probes(ctx.seed)
+    idx = [i for i in range(len(probes)) if i % shard["parts"] == shard["part"]]
+    if not ctx.journal({"kind": "oor", "batch": shard["part"]}):
+        return
+
+    def one(i):
+        return probes[i][3]()
+
+    res = ctx.isolated_batch(one, idx, timeout=120, per_item_timeout=30)
+    for i, r in zip(idx, res):
+        site, cls, expect, _ = probes[i]
+        judge_probe(ctx, site, cls, expect, r, {"kind": "oor", "probe": i, "site": site, "cls": cls})
+    ctx.sample({"kind": "oor", "probe": idx[0], "site": probes[idx[0]][0], "cls": probes[idx[0]][1]})
+
+
+def replay_oor(case, ctx):
+    if "probe" not in case:
+        return
+    probes = oor_probes(ctx.seed)
+    site, cls, expect, fn = probes[case["probe"]]
+    judge_probe(ctx, site, cls, expect, ctx.isolated(fn, timeout=30), case)
+
+
+def oor_shards(tier):
+    return [{"kind": "oor", "part": p, "parts": 4} for p in range(4)]
+
+
+SHARD_SOURCES.extend([kalph_shards, oor_shards])
+RUNNERS.update({"kalph": run_kalph, "oor": run_oor})
+REPLAYERS.update({"kalph": replay_kalph, "oor": replay_oor})
